@@ -57,9 +57,22 @@ CLAIMS = [
                 'KFL / layer-level PWL / RTL assertions are not yet under contract.',
         'design_ref': 'DESIGN.md section 4 C12',
     },
+    {
+        'property_id': 'C13',
+        'level': 'proof',
+        'technique': 'contract-based deductive verification: real regularizer bodies on symbolic kernels/amounts, result '
+                     'proved equal to the documented sums (exact polynomial normal form over |L| atoms, then z3/cvc5)',
+        'text': 'lattice_lib.laplacian_regularizer / torsion_regularizer, the two Lattice regularizer classes and the three PWL '
+                'regularizer classes each carry the postcondition out == documented penalty (index-by-index spec, scalar '
+                'and per-dimension amounts, cyclic wrap-around); corollaries (non-negative, linear in l1/l2, vanishing '
+                'cases) are lemmas over the spec. All obligations discharged for all kernels and all amounts > 0 / == 0.',
+        'note': 'Trusted: operator contracts (cross-checked each run), math.sqrt axiom, z3/cvc5, reals for floats. Bounded: '
+                'ranks 1-4 with unequal sizes, units <= 2, PWL rows 2-5 (quick) / 2-7 (thorough).',
+        'design_ref': 'DESIGN.md section 4 C13',
+    },
 ]
 
 _PENDING = 'check not built yet in this session (planned, see DESIGN.md section 4); not claimed until its check exists'
 NOT_APPLICABLE = [
-    {'property_id': 'C%02d' % i, 'reason': _PENDING} for i in range(2, 21) if i not in (4, 6, 12)
+    {'property_id': 'C%02d' % i, 'reason': _PENDING} for i in range(2, 21) if i not in (4, 6, 12, 13)
 ]
